@@ -368,6 +368,7 @@ def run_rebind(ex, case):
     bind = {label: tr["sub"]} if case["bind_by"] == "str" else {sr: tr["sub"]}
     note(ex, "copy_rebound")
     det = {"label": label, "keys": [repr(k) for k in keys], "target_label": case["target_label"]}
+    before_containers = dict(tgt.containers)
     try:
         tgt.copy_expr_from(src, label, bindings=bind)
     except (Abort, Inconclusive):
@@ -375,6 +376,28 @@ def run_rebind(ex, case):
     except Exception as e:
         ex.fail(f"copy_expr_from with rebinding raised {type(e).__name__}: {e}", det)
         return
+    if set(tgt.containers) != set(before_containers) or any(tgt.containers[k2] is not before_containers[k2] for k2 in before_containers):
+        ex.fail(f"copy_expr_from with a rebinding map changed the target manager's own containers: "
+                f"{ {k2: str(v) for k2, v in tgt.containers.items()} }", det)
+        return
+    if label == case["target_label"]:
+        # a second, plain copy on the same target manager must land on the target's own container
+        inner_top = dict(vals)
+        td.update({k2: v for k2, v in inner_top.items() if k2 not in td})
+        try:
+            tgt.copy_expr_from(src, label)
+        except (Abort, Inconclusive):
+            raise
+        except Exception as e:
+            ex.fail(f"second (plain) copy_expr_from on the same manager raised {type(e).__name__}: {e}", det)
+            return
+        for t, mk in shapes:
+            got = tr[t]._expr
+            if got is None or not (got == mk(tr)):
+                ex.fail(f"plain copy after a rebinding copy: definition of {label}[{t!r}] is {got}, expected {mk(tr)}", det)
+                return
+        for t, _ in shapes:
+            tgt.unregister(tr[t])
     sub = tr["sub"]
     for t, mk in shapes:
         got = sub[t]._expr
